@@ -1,6 +1,8 @@
 import Deb822Verif.Driver.Proto
 import Deb822Verif.Model.RelSat
-/-! C12 driver: `rel.sat`, `ver.cmp` (see harness/src/sat.rs for the line format). -/
+import Deb822Verif.Model.DebVersionRaw
+import Deb822Verif.Spec.RelStrictBad
+/-! C12 driver: `rel.sat`, `ver.cmp`, `ver.cmpraw`, `lk.forms`, `rel.strict` (see harness/src/sat.rs for the line format). -/
 namespace Deb822Verif.Driver.Sat
 open Deb822Verif Proto Rel RelSat
 
@@ -66,8 +68,52 @@ def isCmpPanic {α} : Outcome α → Bool
 /-- the closure form: an independent way of reading the same assignment -/
 def closureOf (a : List (Str × V)) : Str → Option V := fun n => a.lookup n
 
+/-- the panic is the `parse::<i32>().unwrap()` of finding F-C12-1 (not a byte-index panic) -/
+def isI32Panic {α} : Outcome α → Bool
+  | .panic s => s.startsWith "debversion lib.rs:137"
+  | .ok _ => false
+
+def showLookup (o : Option V) : String := match o with | some v => encVersion v | none => "none"
+
+/-- `rel.strict` (Props/C12Strict.lean): strict flag, accessor panics per alternative (`N` = `name()`,
+    `V` = `version()`, `k` = none), the BAD classes `Rel.badOp` / `Rel.bigEpoch` per alternative (strict-accepted
+    text only), and the lossless evaluator with nothing installed / everything installed at version `0` -/
+def strictObs (s : Str) : String × Bool :=
+  let p := parse s false
+  let strict := p.errors.isEmpty
+  let rels := (entries p.tree).map relations
+  let accC := fun (r : RNode) => match name r with
+    | none => "N"
+    | some _ => match version r with | .error _ => "V" | .ok _ => "k"
+  let clsC := fun (r : RNode) => match badOp r, bigEpoch r with
+    | true, true => "b" | true, false => "o" | false, true => "e" | false, false => "."
+  let join := fun (f : RNode → String) =>
+    if rels.isEmpty then "-" else ";".intercalate (rels.map fun e => "|".intercalate (e.map f))
+  let view := match viewL p.tree with | .ok _ => "k" | .panic _ => "P"
+  let sNone := relationsSatLO DebVersion.compareO (fun _ => none) p.tree
+  let sAll := relationsSatLO DebVersion.compareO (fun _ => Version.parse ['0']) p.tree
+  (s!"strict={if strict then "ok" else "err"} view={view} acc={join accC} cls={if strict then join clsC else "-"} sat={showB sNone}{showB sAll}",
+    isCmpPanic sNone || isCmpPanic sAll)
+
 def handle (op : String) (args : List String) : Option String :=
   match op, args with
+  | "ver.cmpraw", [a, b] => do
+    -- values built literally: the byte-index twin of `Version::cmp`
+    let v ← decVersion a
+    let w ← decVersion b
+    let r := DebVersion.compareB v w
+    let c := match r with
+      | .ok .lt => "lt" | .ok .eq => "eq" | .ok .gt => "gt" | .panic _ => "PANIC"
+    pure (c ++ (if isI32Panic r then "\t!F-C12-1" else ""))
+  | "lk.forms", [asg, n] => do
+    let a ← decAssign asg
+    let n ← decStr n
+    let p := match a with | [b] => showLookup (Lookup.ofPair b n) | _ => "-"
+    pure s!"m={showLookup (Lookup.ofMap a n)} c={showLookup (Lookup.ofFn (closureOf a) n)} p={p}"
+  | "rel.strict", [t] => do
+    let s ← decStr t
+    let (obs, trig) := strictObs s
+    pure (obs ++ (if trig then "\t!F-C12-1" else ""))
   | "ver.cmp", [a, b] => do
     let a ← decStr a
     let b ← decStr b
